@@ -17,6 +17,7 @@ ASSUMPTIONS = ["systems are assembled with compute_consistent_initial_conditions
                "the consistency logic itself is the subject of C16",
                "T/D oracles: Richardson central differences, violation iff error > 1e-6*max(1,|D|) + 20*uncertainty; noisy => undecided"]
 REQUIRED_MONITORS = ["EQ:g0", "T:g_dot", "W:W", "T:g_ddot", "D:g_q", "D:g_dot_q", "D:g_dot_u", "D:Wla_q"]
+FORMAT_TWIN = True          # ambient monitor: every System matrix is also requested in the other documented formats (vlib/formattwin.py)
 META = {
     "level_text": "Exploration: generated systems covering every joint type x subsystem pairing are assembled with the real System and every level of the constraint hierarchy is decided at on- and off-manifold states by time-derivative, transpose-Jacobian and finite-difference oracles on the system-level methods. Held on the systems and states generated.",
     "level_note": "float64 finite-difference oracles with measured uncertainty; consistent initial conditions disabled during assembly (C16 covers them).",
